@@ -4,7 +4,7 @@ Bounded exhaustive enumeration of TreeTransform programs on real working trees
 (bzr 2a dirstate trees and git trees: separate sub-runs, separate signatures).
 Base tree: committed file `a`, directory `d`, executable file `d/b`, symlink
 `l`, plus an unversioned file `u`.  Every sequence of <= 3 operations (quick:
-35-letter alphabet; thorough: 58-letter alphabet, plus every sequence of <= 4
+36-letter alphabet; thorough: 59-letter alphabet, plus every sequence of <= 4
 over a 20-letter core) from {new_file (versioned or not), new_directory,
 new_symlink, delete_contents, unversion_file, version_file, adjust_path (names x
 parents: self/loops, duplicates, missing and file parents), set_executability,
@@ -156,7 +156,7 @@ def _alphabet(level):
         return Alphabet(
             "quick",
             new_file=[("n", "@"), ("a", "@"), ("n", "@d"), ("n", "@a"), ("n", "@m")],
-            new_file_unv=[("n", "@")],
+            new_file_unv=[("n", "@"), ("n", "@m")],
             new_dir=[("n", "@"), ("a", "@"), ("n", "@d"), ("n", "@m")],
             new_link=[("a", "@")],
             delete=["@a", "@d", "@d/b"],
@@ -173,7 +173,7 @@ def _alphabet(level):
     return Alphabet(
         "wide",
         new_file=[("n", "@"), ("n", "@d"), ("n", "@a"), ("n", "@m"), ("a", "@"), ("b", "@d")],
-        new_file_unv=[("n", "@"), ("n", "@d")],
+        new_file_unv=[("n", "@"), ("n", "@d"), ("n", "@m")],
         new_dir=[("n", "@"), ("a", "@"), ("n", "@d"), ("n", "@m")],
         new_link=[("n", "@"), ("a", "@"), ("n", "@d")],
         delete=["@a", "@d", "@d/b", "@l", "@"],
@@ -429,13 +429,16 @@ def _text(s):
     return s
 
 
-def describe_path(tree, path, versioned):
-    """What a tree (preview or working) says about one path through the public Tree API."""
+def describe_path(tree, path, want_content):
+    """What a tree (preview or working) says about one path through the public Tree API (bytes / link target /
+    exec bit only for versioned entries: only those are compared)."""
     r = {}
     r["has"] = _call("has_filename", tree.has_filename, path)
     kind = _norm_kind(_call("kind", tree.kind, path))
     r["kind"] = kind
     r["versioned"] = _call("is_versioned", tree.is_versioned, path)
+    if not want_content:
+        return r
     if kind == "file":
         r["content"] = _call("get_file_text", tree.get_file_text, path)
         x = _call("is_executable", tree.is_executable, path)
@@ -473,7 +476,7 @@ def preview_dump(w, pv):
         universe.update(p for p in ex if p)
     paths = {}
     for p in sorted(universe):
-        paths[p] = describe_path(pv, p, None)
+        paths[p] = describe_path(pv, p, isinstance(ents, Err) or p in ents)
     d["paths"] = paths
     return d
 
@@ -494,7 +497,7 @@ def tree_dump(w, tree, snap):
             universe.update(ents)
         paths = {}
         for p in sorted(universe):
-            paths[p] = describe_path(tree, p, None)
+            paths[p] = describe_path(tree, p, isinstance(ents, Err) or p in ents)
         d["paths"] = paths
     return d
 
